@@ -169,7 +169,7 @@ FileOK ==
     LET F == File IN \A n \in ProbeNums, g \in ProbeGens : Lookup(F, n, g) = RefPhys(hist, n, g)
 
 \* stream extent, for every end-of-line marker and every declared length
-Eols == {<<10>>, <<13>>, <<13, 10>>}
+Eols == {<<10>>, <<13>>, <<13, 10>>, <<>>}    \* <<>>: no marker before endstream
 After == <<10, 120, 32>> \o KW \o <<10>>
 DataOf(eol) == body \o eol \o KW \o After
 LKinds == {"int", "null", "none"}
@@ -184,7 +184,7 @@ ExtentOK ==
           => ImplExtent(D, ImplDeclared(lk, v)) = RefExtent(D, blen)
 \* a correct length is right for every body, admissible or not
 CorrectOK ==
-  mode = "extent" => \A eol \in Eols : ImplExtent(DataOf(eol), Len(body)) = Len(body)
+  mode = "extent" => \A eol \in Eols : ImplExtent(DataOf(eol), ImplDeclared("int", Len(body))) = Len(body)
 \* what the code does in the class carved out above
 DivergenceIs ==
   mode = "extent" =>
